@@ -1,5 +1,6 @@
 import GateModel.Base.Line
 import GateModel.C16.Model
+import GateModel.Gen.C16
 import Std.Data.HashSet
 /-
 C16 driver — the model as an ACCEPTOR of end-to-end observations.
@@ -18,6 +19,14 @@ Spec verdict (independent of the model, on the implementation's output): see `ju
 -/
 namespace Gate.C16
 open Gate
+
+/-- the variant of the model that corresponds to the SOURCE as it is now (regenerated call facts): is the second check
+    done together with the publication of the connection, and does `connect()` still reset the in-flight slot -/
+def srcCfg (modern : Bool) (try_ : List Nat) : Cfg :=
+  { modern := modern, try_ := try_,
+    atomicSet := Gate.Gen.C16.internalConnectCalls.contains "c.checkServerAndSetInFlight" &&
+                 !Gate.Gen.C16.internalConnectCalls.contains "c.player.setInFlightConnection",
+    foreignReset := Gate.Gen.C16.connectCalls.contains "c.player.resetInFlightConnection" }
 
 def behOfString : String → Option Beh
   | "a" => some .accept | "r" => some .refuse | "kl" => some .kickLogin | "el" => some .eofLogin
@@ -215,13 +224,13 @@ def judge (d : DS) (op : String) (args : List String) (impl : String) (mp : Nat)
       else if r = "inprogress" then (if unchanged then "ok" else "viol:noop-side-effect")
       else if r = "canceled" then (if unchanged then "ok" else "viol:noop-side-effect")
       else -- disconnected / err: previous server kept (or, 1.20.2+, given up during configuration)
-        (if o.cur = prev.cur || (d.cfg.modern && o.cur = "-") then "ok" else "viol:failed-unsafe")
+        (if o.cur = prev.cur || (d.cfg.modern && o.cur = "-") then "ok" else "viol:failed-not-safe")
     | "par", [a, b], r1 :: r2 :: _ =>
       if mp > d.outstanding + d.orphaned + 1 then "viol:two-attempts-in-flight"
       else if d.outstanding > 0 then (if r1 = "inprogress" && r2 = "inprogress" && unchanged then "ok" else "viol:inflight-not-reported")
       else
         let oks := (if r1 = "ok" then [a] else []) ++ (if r2 = "ok" then [b] else [])
-        if oks.isEmpty then (if o.cur = prev.cur || (d.cfg.modern && o.cur = "-") then "ok" else "viol:failed-unsafe")
+        if oks.isEmpty then (if o.cur = prev.cur || (d.cfg.modern && o.cur = "-") then "ok" else "viol:failed-not-safe")
         else if oks.contains o.cur then "ok" else "viol:not-on-destination"
     | "race", [a, b], r1 :: r2 :: _ =>
       -- both requests were held between the check and the publication of their connection: the backends must never
@@ -249,10 +258,11 @@ def splitMp (impl : String) : String × Nat :=
 
 def stepDriver (d : DS) (c0 : Case) : DS × String × String :=
   let (core, mp) := splitMp c0.impl
-  let c : Case := { c0 with impl := core }
+  -- a trailing `@<scenario>.<step>` argument only makes the case line unique
+  let c : Case := { c0 with impl := core, args := c0.args.filter (fun a => !a.startsWith "@") }
   match c.op, c.args with
   | "reset", [_proto, m, try_, scripts] =>
-    let cfg := repaired (m = "1") ((try_.splitOn ",").map srvOf)
+    let cfg := srcCfg (m = "1") ((try_.splitOn ",").map srvOf)
     let s0 : St := { scripts := parseScripts scripts }
     ({ cfg := cfg, states := [(s0, [])] }, "ok", "-")
   | "script", [srv, behs] =>
